@@ -13,16 +13,25 @@ class PrimitiveNode(XmlNode):
         var: The xml var instance
         ns_map: The element namespace prefix-URI map
         config: The parser config instance
+        xsi_nil: Specifies whether the element has the xsi:nil attribute
     """
 
-    __slots__ = "config", "meta", "ns_map", "var"
+    __slots__ = "config", "meta", "ns_map", "var", "xsi_nil"
 
-    def __init__(self, meta: XmlMeta, var: XmlVar, ns_map: dict, config: ParserConfig):
+    def __init__(
+        self,
+        meta: XmlMeta,
+        var: XmlVar,
+        ns_map: dict,
+        config: ParserConfig,
+        xsi_nil: bool | None = None,
+    ):
         """Initialize the xml node."""
         self.meta = meta
         self.var = var
         self.ns_map = ns_map
         self.config = config
+        self.xsi_nil = xsi_nil
 
     def bind(
         self,
@@ -46,16 +55,20 @@ class PrimitiveNode(XmlNode):
         Returns:
             Whether the binding process was successful or not.
         """
-        obj = ParserUtils.parse_var(
-            meta=self.meta,
-            var=self.var,
-            config=self.config,
-            value=text,
-            ns_map=self.ns_map,
-        )
+        if self.xsi_nil and self.var.nillable and not self.var.tokens and not text:
+            # A nil element has no value, not even the default one
+            obj = None
+        else:
+            obj = ParserUtils.parse_var(
+                meta=self.meta,
+                var=self.var,
+                config=self.config,
+                value=text,
+                ns_map=self.ns_map,
+            )
 
-        if obj is None and not self.var.nillable:
-            obj = b"" if bytes in self.var.types else ""
+            if obj is None and not self.var.nillable:
+                obj = b"" if bytes in self.var.types else ""
 
         objects.append((qname, obj))
 
